@@ -26,6 +26,12 @@ untracked files, and the exit class (done / refused / panic).  Direct oracle on 
 does not know about is neither overwritten nor recorded.  Tie: model `copyDest` / `copyRefused` (destination path and
 guard decision on the recorded paths and workspace paths of the case) vs what the binary did in B.
 
+Destination spellings (`case['dest_spelling']`): the copy / move destination typed in the cwd as `./x`, with a detour
+`tmpx/../x`, climbing and coming back (`../<cwd>/x`), climbing to the parent / the root / another top-level directory
+with `..`; the root form A always uses the lexically normalised root-relative destination (a destination is a PATH that
+XvcPath::new normalises, unlike a target, which is a glob: K-C18-dotdot).  Besides the abstraction, follow-up commands
+by the real path are compared (`list <dest>`, `rm <dest>; recheck <dest>`), and no form may record a path with `..`.
+
 Form D (every copy / move case, one in FORM_D_EVERY of the others): `-C <absolute path of cwd>` run with a PROCESS
 working directory outside the repository (form C: process cwd = root), so that anything resolved against the process
 cwd instead of xvc's current directory differs; destination states `untracked` (the destination directory / file exists
@@ -36,7 +42,7 @@ import concurrent.futures, hashlib, json, os, shutil, stat
 from common import Check, run_lines, shrink
 from xvcbin import Sandbox, digest_hex, cache_rel
 
-WORKERS = 6
+WORKERS = 10
 
 FILES = {
     'r1.txt': 'root one\n', 'r2.dat': 'root two data\n',
@@ -122,12 +128,14 @@ def layout_of(case):
 
 
 def join(cwd, t):
-    return f'{cwd}/{t}' if cwd else t
+    return f'{cwd}/{t}' if cwd and cwd != '.' else t        # cwd '.': the root itself (only in hand-written replay cases)
 
 
 def below(cwd, p):
     """what C18's second sentence means by "under the current directory": the COMPONENTS of cwd are a proper prefix
     of the components of p (Lean: `properAncestor`)"""
+    if cwd == '.':
+        return True
     c, q = cwd.split('/'), os.path.normpath(p).split('/')
     return len(q) > len(c) and q[:len(c)] == c
 
@@ -385,7 +393,7 @@ SHAPES = ['file', 'files', 'dir/', 'dir', 'glob', 'mixed', 'none']
 NOTARGET_FAMILIES = ['track', 'carry-in', 'recheck', 'list', 'send', 'bring']
 
 
-def gen_case(rng, chk, family=None, cwd=None, shape=None, layout='base', variant=None, dest_kind=None, dest_state=None, force=None):
+def gen_case(rng, chk, family=None, cwd=None, shape=None, layout='base', variant=None, dest_kind=None, dest_state=None, force=None, dest_spelling=None):
     L = layout_of({'layout': layout})
     family = family or rng.choice(FAMILIES)
     cwd = cwd or rng.choice(L['cwds'])
@@ -406,9 +414,18 @@ def gen_case(rng, chk, family=None, cwd=None, shape=None, layout='base', variant
             dst = rng.choice(['dstdir/', 'new/dd/'])
         else:
             dst = rng.choice(['copied.' + ext, 'new/dest.' + ext, (os.path.dirname(src) + '/' if '/' in src else '') + 'renamed.' + ext])
+        # how the destination is SPELLED from the cwd (the root form always uses the normalised root-relative path):
+        # plain; `./x`; a detour `tmpx/../x`; climbing and coming back `../<cwd name>/x`; climbing to the parent, to the
+        # root and into another top-level directory.  Sources never contain `..` (targets are globs: K-C18-dotdot).
+        spelling = dest_spelling or (rng.choice(SPELLINGS[1:]) if rng.random() < 0.35 else 'plain')
+        dst = spell_destination(cwd, dst, spelling, L)
+        if spelling != 'plain':
+            case['dest_spelling'] = spelling
         case['targets'] = [src, dst]
         case['shape'] = 'file->dir' if kind == 'dir' else 'file->file'
         case['dest_state'] = dest_state or rng.choice(['absent'] * 3 + ['untracked'] * 4 + ['tracked'] + ['mirror'] * 2 + ['mirror-root'] * 2)
+        if spelling.startswith('climb') and case['dest_state'].startswith('mirror'):
+            case['dest_state'] = 'absent'                     # the mirrored locations of a climbing argument are outside the tree
         if family == 'copy' and (rng.random() < 0.3 if force is None else force):
             case['opts'] = ['--force']
     else:
@@ -441,6 +458,39 @@ def count_case(chk, case):
             chk.count('prefix-sibling-notargets:' + case['family'])
     if case['family'] in ('copy', 'move') and case['shape'] in ('file->file', 'file->dir'):
         chk.count(f"destination:{case['family']}:{case['shape'].split('->')[1]}:{case.get('dest_state', 'absent')}" + (':force' if '--force' in case['opts'] else ''))
+        chk.count(f"destination-spelling:{case['family']}:{case.get('dest_spelling', 'plain')}")
+
+
+SPELLINGS = ['plain', 'dot', 'detour', 'climb-back', 'climb-back-root', 'climb-parent', 'climb-root', 'climb-other']
+
+
+def spell_destination(cwd, dst, spelling, L):
+    """dst: a plain destination inside the cwd (`name.ext`, `new/dest.ext`, `dstdir/`); returns the argument to type in cwd"""
+    depth = cwd.count('/') + 1
+    up = '../' * depth
+    if spelling == 'plain':
+        return dst
+    if spelling == 'dot':
+        return './' + dst.replace('/', '/./', 1) if '/' in dst.rstrip('/') else './' + dst
+    if spelling == 'detour':
+        return 'tmpx/../' + dst
+    if spelling == 'climb-back':                              # ../<name of the cwd>/dst: the same destination as `plain`
+        return '../' + cwd.rsplit('/', 1)[-1] + '/' + dst
+    if spelling == 'climb-back-root':                         # all the way up and down again
+        return up + cwd + '/' + dst
+    if spelling == 'climb-parent':                            # a destination next to the cwd
+        return '../' + dst
+    if spelling == 'climb-root':                              # a new top-level directory
+        return up + 'outside/' + dst
+    if spelling == 'climb-other':                             # an existing other top-level directory of the layout
+        tops = [d for d in L['dirs'] if '/' not in d and d != cwd.split('/')[0]]
+        return up + (tops[-1] if tops else 'outside') + '/' + dst
+    raise ValueError(spelling)
+
+
+def norm_dest(cwd, dst):
+    """the corresponding root-relative destination: lexically normalised, directory marker kept"""
+    return os.path.normpath(join(cwd, dst)) + ('/' if dst.endswith('/') else '')
 
 
 def copy_dest_path(case):
@@ -462,7 +512,10 @@ def apply_dest_state(sb, case):
     src, dst = case['targets']
     # the destination ARGUMENT read against a directory that is not xvc's current directory: the file it would name there
     arg_rel = os.path.normpath(dst.rstrip('/') + '/' + join(case['cwd'], src)) if dst.endswith('/') else os.path.normpath(dst)
-    if st != 'untracked':
+    if arg_rel.startswith('..'):
+        if st.startswith('mirror'):
+            return
+    elif st != 'untracked':
         # the PROCESS working directory of form D holds what the destination argument names (directory and file), the
         # repository does not (except for `tracked`); for `untracked` it is the other way round (seeded/C03-3)
         e = os.path.join(sb.base, 'elsewhere', arg_rel)
@@ -494,7 +547,27 @@ def root_targets(case):
         return case['root_targets']
     if case['shape'] == 'none':
         return [cwd + '/']                                    # "with no targets it applies to the files under the current directory"
+    if case['family'] in ('copy', 'move') and len(case['targets']) == 2:
+        # the destination is a PATH (XvcPath::new), not a glob: its root-relative form is the normalised one
+        return [join(cwd, case['targets'][0]), norm_dest(cwd, case['targets'][1])]
     return [join(cwd, t) for t in case['targets']]
+
+
+def wants_followup(case):
+    return case['family'] in ('copy', 'move') and case['shape'] in ('file->file', 'file->dir') and bool(case.get('dest_spelling') or case.get('followup'))
+
+
+def followup(sb, case):
+    """later commands that name the destination by its REAL root-relative path, run from the root of the same sandbox
+    (after its abstraction was taken): is it listed as recorded, and does recheck restore it after it was deleted"""
+    P = copy_dest_path(case)
+    rc1, o1, e1 = sb.x('file', 'list', '--no-summary', '--format', '{{aft}} {{rcd8}} {{name}}', P, cwd=sb.root)
+    rows = sorted(tuple(l.split()) for l in o1.splitlines() if l.strip())
+    if os.path.lexists(sb.path(P)):
+        os.unlink(sb.path(P))
+    rc2, o2, e2 = sb.x('file', 'recheck', P, cwd=sb.root)
+    return {'list ' + P: rows, 'list exit': exit_class(rc1), 'recheck exit': exit_class(rc2),
+            'after rm + recheck ' + P: sha(sb.read(P)) if os.path.lexists(sb.path(P)) else 'NOT restored'}
 
 
 ELSEWHERE = '$ELSEWHERE (a directory outside the repository)'
@@ -504,7 +577,7 @@ FORM_D_EVERY = 3        # form D for copy / move always, for the other families 
 def wants_form_d(case):
     if case.get('root_targets') or case.get('storage_path'):
         return False                                          # known-finding replays run exactly as before
-    if case['family'] in ('copy', 'move'):
+    if case['family'] in ('copy', 'move') or case['cwd'] == '.':
         return True
     h = int(hashlib.sha1(json.dumps(case, sort_keys=True).encode()).hexdigest(), 16)
     return h % FORM_D_EVERY == 0
@@ -553,6 +626,8 @@ def run_case(chk, xvc, name, case):
             rc, out, err = sb.x(*real_argv, cwd=wd)
             ab = abstract(sb, storage if os.path.isdir(storage0) else None)
             ab['list'] = parse_list(out, cwd if form != 'A' else '') if case['family'] == 'list' else None
+            if wants_followup(case):
+                ab['followup'] = followup(sb, case)
             runs[form] = {'argv': ['xvc'] + argv, 'cwd': cd or '.', 'rc': rc, 'stdout': out[-1500:], 'stderr': err[-800:], 'abs': ab,
                           'errors': sum(1 for l in (out + '\n' + err).splitlines() if l.startswith('[ERROR]'))}
             sb.cleanup()
@@ -576,7 +651,19 @@ def run_case(chk, xvc, name, case):
         if case['family'] == 'list' and runs['A']['abs']['list'] != runs[other]['abs']['list']:
             la, lb = runs['A']['abs']['list'], runs[other]['abs']['list']
             msgs.append(f"list rows differ ({other}): only at root {[r for r in la if r not in lb][:4]}, only from {runs[other]['cwd']} {[r for r in lb if r not in la][:4]}")
+    for other in ('B', 'C', 'D'):
+        if other in runs and 'A' in runs and not ('A' in panicked and other in panicked) \
+                and runs['A']['abs'].get('followup') != runs[other]['abs'].get('followup'):
+            fa, fb = runs['A']['abs'].get('followup') or {}, runs[other]['abs'].get('followup') or {}
+            msgs.append(f"follow-up commands by the real path differ after `{' '.join(runs['A']['argv'])}` at the root and `{' '.join(runs[other]['argv'])}` in {runs[other]['cwd']}: "
+                        + '; '.join(f'{k}: root={fa.get(k)} vs {fb.get(k)}' for k in sorted(set(fa) | set(fb)) if fa.get(k) != fb.get(k)))
     if case['family'] in ('copy', 'move'):
+        # records are root-relative NORMAL paths (XvcPath::new normalises): stated directly, independent of run A
+        for other in ('A', 'B', 'C', 'D'):
+            if other in runs and runs[other]['rc'] not in (101, 124):
+                bad = sorted(p for p in runs[other]['abs']['records'] if '..' in p.split('/') and p not in pre['records'])
+                if bad:
+                    msgs.append(f"`{' '.join(runs[other]['argv'])}` in {runs[other]['cwd']} recorded paths that are not normalised: {bad[:6]}")
         # exit class: "refused at the root, done from the subdirectory" is a difference even before looking at effects
         for other in ('B', 'C', 'D'):
             if other in runs and 'A' in runs and not ('A' in panicked and other in panicked) \
@@ -808,8 +895,14 @@ def describe(r):
 
 
 def signature(case, msgs):
-    if any('..' in t.split('/') for t in case['targets']):
+    glob_targets = case['targets'][:1] if case['family'] in ('copy', 'move') and len(case['targets']) == 2 else case['targets']
+    if any('..' in t.split('/') for t in glob_targets):
         return {'finding': 'parent-relative-target'}
+    if glob_targets is not case['targets'] and '..' in case['targets'][1].split('/'):
+        # a DESTINATION goes through XvcPath::new, which normalises: not the known finding about targets (globs)
+        return {'finding': 'parent-relative-destination', 'family': case['family']}
+    if case['cwd'] == '.':
+        return {'finding': 'dash-C-root-from-another-process-directory', 'family': case['family']}
     if case.get('storage_path') and not case['storage_path'].startswith('/'):
         return {'finding': 'relative-local-storage-path'}
     return {'finding': 'cwd-dependence', 'family': case['family']}
@@ -824,7 +917,22 @@ def _cm(layout, family, cwd, src, dst, state, force=False, variant=0):
             'shape': 'file->dir' if dst.endswith('/') else 'file->file', 'targets': [src, dst], 'dest_state': state}
 
 
+def _sp(c, spelling):
+    return dict(c, dest_spelling=spelling)
+
+
 CORPUS = [
+    # seeded/C18-3 (minimised): a DESTINATION that climbs out of the cwd with `..` (XvcPath::new normalises it; a plain
+    # join records data/../other/a.txt): move and copy, file and directory form, climbing and coming back; one level
+    # (mini, cwd data) and two levels (prefix, cwd data/raw: ../../other/a.txt, ../clean/b.txt, ../raw/c2.txt as in demo.sh)
+    _sp(_cm('mini', 'move', 'data', 'a.txt', '../other/a.txt', 'absent'), 'climb-root'),
+    _sp(_cm('mini', 'copy', 'data', 'a.txt', '../data2/c.txt', 'absent'), 'climb-other'),
+    _sp(_cm('mini', 'copy', 'data', 'a.txt', '../data/c2.txt', 'absent'), 'climb-back'),
+    _sp(_cm('mini', 'copy', 'data', 'a.txt', '../backup/', 'absent'), 'climb-root'),
+    _sp(_cm('prefix', 'move', 'data/raw', 'r.txt', '../../other/a.txt', 'absent'), 'climb-other'),
+    _sp(_cm('prefix', 'copy', 'data/raw', 'r.txt', '../clean/b.txt', 'absent'), 'climb-parent'),
+    _sp(_cm('prefix', 'copy', 'data/raw', 'r.txt', '../raw/c2.txt', 'untracked'), 'climb-back'),
+    _sp(_cm('prefix', 'move', 'data/raw', 'r.txt', './tmpx/../moved.txt', 'absent'), 'detour'),
     # seeded/C18-2 (minimised): data/a.txt is tracked, a file xvc does not know about is at the copy destination (file
     # destination data/b.txt; directory destination data/backup/ -> data/backup/data/a.txt); without --force the copy is
     # refused at the root and must be refused from data/ (cd and -C) as well.  Mirror image: an unknown file at
@@ -969,11 +1077,11 @@ def run(chk: Check):
         'the shortcut of targets_from_disk for plain file names (stat instead of walk) returns the same set as the walk (checked by the metamorphic comparison: the root run takes the shortcut, the subdirectory run does not)',
         'records of directories are compared by path and type only; `.gitignore` files as sorted lines without xvc\'s time-stamped banner',
         'local storage is created with an absolute path (relative path: known finding)',
-        'copy / move: one source file, destination inside the cwd (no `..`: known finding), same extension as the source (K2 is a finding of C19), no --name-only; a directory-destination copy that is refused per file exits 0 in the unchanged binary (the refusal is visible as "no effect")',
+        'copy / move: one source file WITHOUT `..` (sources are targets/globs: known finding K-C18-dotdot); destinations inside the repository, spelled plainly or with `.`, detours and `..` (own signature parent-relative-destination, not a known finding); same extension as the source (K2 is a finding of C19), no --name-only; a directory-destination copy that is refused per file exits 0 in the unchanged binary (the refusal is visible as "no effect")',
         'file and directory names are literal: letters, digits, `.`, `-`, `_` (glob metacharacters in names: known gap of the unchanged binary, not generated)',
         'messages are not compared (only effects and the rows of `list`); a differing number of [ERROR] lines between the directories is counted in the distribution (error-line-count-differs-between-directories:<family>)',
     ]
-    n = 70 if quick else 1000
+    n = 60 if quick else 1000
     cases = [dict(c) for c in CORPUS]
     for c in cases:
         count_case(chk, c)
@@ -1011,11 +1119,21 @@ def run(chk: Check):
                                       ('move', 'mirror', False), ('move', 'mirror-root', False)]:
                 k += 1
                 cases.append(gen_case(chk.rng, chk, fam, cw[k % len(cw)], layout=layout, dest_kind=kind, dest_state=state, force=force))
+    # spellings of the destination, systematic: every non-plain spelling x copy / move x both layouts, file and directory
+    # form and the state of the destination (absent / untracked / tracked) rotated
+    for layout in ('base', 'prefix'):
+        cw = LAYOUTS[layout]['cwds']
+        for sp in SPELLINGS[1:]:
+            for fam in ('copy', 'move'):
+                k += 1
+                cases.append(gen_case(chk.rng, chk, fam, cw[k % len(cw)], layout=layout, dest_kind=('file', 'dir')[k % 2],
+                                      dest_state=('absent', 'untracked', 'absent', 'tracked')[k % 4], force=False, dest_spelling=sp))
     cases += [gen_case(chk.rng, chk, layout='prefix' if i % 5 in (1, 3) else 'base') for i in range(n)]
-    chk.extra['rule'] = (f'corpus ({len(CORPUS)} fixed cases: seeded/C18-2 minimised (copy onto an untracked file from a subdirectory), seeded/C18-1 minimised (no targets next to a sibling whose name extends the name of the cwd), F3, directory-slash rule with an absent directory, K9b, track without targets / with -C) + {len(KNOWN_REPLAYS)} known-finding replays + '
+    chk.extra['rule'] = (f'corpus ({len(CORPUS)} fixed cases: seeded/C18-3 minimised (destination climbing with `..` from a subdirectory), seeded/C18-2 minimised (copy onto an untracked file from a subdirectory), seeded/C18-1 minimised (no targets next to a sibling whose name extends the name of the cwd), F3, directory-slash rule with an absent directory, K9b, track without targets / with -C) + {len(KNOWN_REPLAYS)} known-finding replays + '
                          f'every command family (track, carry-in, recheck, list, send, bring, remove, untrack, copy, move) x every depth 1-3 with rotating target shapes + '
                          f'adversarial-name layout (data / data2 / data-old / data.bak / datafile.txt / da, data/raw / data/rawer / data/raw.txt, proj/train / proj/train_aug / proj/train.csv / proj/tr): '
                          f'copy / move destinations on both layouts: file and directory destination x (absent, untracked workspace file, tracked, untracked file at <cwd>/<cwd>/<dest> only), copy with and without --force (48 cases incl. the destination argument existing only where the PROCESS stands; exit class compared; direct guard oracle: without --force an untracked file is neither overwritten nor recorded; model copyDest/copyRefused vs binary); '
+                         f'destination spellings ({", ".join(SPELLINGS[1:])}) x copy / move x both layouts (28 cases; the root form uses the normalised root-relative destination; follow-up list / rm + recheck by the real path compared; recorded paths without `..`); '
                          f'no targets for every family that accepts it ({", ".join(NOTARGET_FAMILIES)}) x every cwd with such a sibling ({", ".join(sib_cwds)}) with every file actionable, and every family x 2 cwds (copy, move: 1) with explicit targets + {n} random cases, 2 in 5 on the adversarial layout; every copy / move case and one in 3 of the others also runs form D: process cwd outside the repository, -C <absolute path> '
                          '(family, cwd of depth 1-3, shape in file / two files / dir/ / dir / glob / file+glob / no targets, option variants --recheck-method, --force, preparation variants incl. tracked '
                          'with copy/symlink/hardlink, edited files, deleted files, a whole directory deleted). Every case: one prepared repository, three byte-identical copies, the command from the root with '
